@@ -29,8 +29,8 @@ CFG = {
 }
 DEEP = {
     "quick": [dict(MaxLen=7, LeafNames={"n2", "xs", "ts", "q0m"}, OpNames={"mul2", "add2", "pow"})],
-    "thorough": [dict(MaxLen=7, LeafNames={"n0", "n2", "nm1", "m", "s", "xs", "ts", "ks", "q0m", "dft"},
-                      OpNames={"mul2", "add2", "pow", "abs", "max2", "exp"}),
+    "thorough": [dict(MaxLen=7, LeafNames={"n0", "n2", "nm1", "m", "xs", "ts", "q0m", "dft"},
+                      OpNames={"mul2", "add2", "pow", "abs", "max2"}),
                  dict(MaxLen=9, LeafNames={"n2", "xs", "ts", "q0m"}, OpNames={"mul2", "add2", "pow"})],
 }
 INVARIANTS = ["TypeOK", "CommutingDiagram", "InferRefusesLess"]
@@ -213,6 +213,7 @@ def enumerate_and_replay(run: Run, sc, cfgd: dict, pool, label: str) -> None:
     cfg2 = write_cfg(sc / f"ei_{label}_emit.cfg", constants=cfgd, invariants=["Emit"])
     res2 = run_tlc("ExprInfer", cfg2, sc, workers=1, allow_violation=False)
     cases = res2.printed
+    res2.output = ""
     run.coverage.setdefault("programs_emitted", {})[label] = len(cases)
     if label == "wide":
         run.cases_for_traces = cases
